@@ -182,4 +182,40 @@ example : (RefineData.srun exM A (A, some 0)
 example : RefineData.WriteFree envAllow := by
   intro h c; unfold envAllow; cases c.kind <;> rfl
 
+open Refine in
+/-- `refines_spec` instantiated end to end on the concrete machine: a new wrapper, `go` (accepted: lands on
+    `Dd`, the initial leaf of `P`), `go` again under a refusing truth assignment (`g2` false: refused, state
+    kept), then `stop` (declared from `P`: back to `A`). The theorem yields the run; `decide` evaluates only the
+    four-line abstract machine. -/
+example : ∃ d0 df rs, dynNew exM.code (partsOf exM) 7 = some d0 ∧
+    runEventsE exM d0
+      [(envAllow, exEvents[0], some 1), (envRefuse, exEvents[0], some 2), (envAllow, exEvents[1], none)] [] = some (df, rs) ∧
+    rs.map (fun r => decide (r = .ok)) = [true, false, true] ∧ df.stateName = some A := by
+  obtain ⟨tm, hnew, _, _, hinv⟩ := C01.new_initial exM ex_validates 7
+  have hAllow : Tame (envAllow, fun n => n == g1 || n == g2) := by
+    refine ⟨?_, ?_⟩
+    · intro h c hk; simp [envAllow, hk]
+    · intro h c; unfold envAllow; refine ⟨?_, ?_, ?_, ?_⟩ <;> intro hk <;> simp [hk]
+  have hRefuse : Tame (envRefuse, fun n => n == g1) := by
+    refine ⟨?_, ?_⟩
+    · intro h c hk; simp [envRefuse, hk]
+    · intro h c; unfold envRefuse envAllow; refine ⟨?_, ?_, ?_, ?_⟩ <;> intro hk <;> simp [hk]
+  obtain ⟨df, rs, hrun, hrs, hfs, _, _⟩ := refines_spec exM ex_validates ex_graphBuilt ex_pascalInj
+    [((envAllow, fun n => n == g1 || n == g2), exEvents[0], some 1),
+     ((envRefuse, fun n => n == g1), exEvents[0], some 2),
+     ((envAllow, fun n => n == g1 || n == g2), exEvents[1], none)]
+    ⟨some (exM.initial, tm)⟩ A []
+    (by
+      intro x hx
+      simp only [List.mem_cons, List.mem_nil_iff, or_false] at hx
+      rcases hx with rfl | rfl | rfl
+      · exact ⟨hAllow, by decide⟩
+      · exact ⟨hRefuse, by decide⟩
+      · exact ⟨hAllow, by decide⟩)
+    hinv rfl
+  refine ⟨_, df, rs, hnew, hrun, ?_, ?_⟩
+  · rw [hrs]; decide
+  · rw [hfs]; decide
+
+
 end SMV.Witness
